@@ -10,6 +10,7 @@ import DS.Model.Orbit
 import DS.Model.Constraints
 import DS.Model.Lookup
 import DS.Model.Cif
+import DS.Model.Partition
 import DS.Gen.Lookup
 import DS.Model.Adp
 import DS.Gen.DIndex
@@ -260,6 +261,19 @@ def cifHandle (ws : List String) : Option String :=
       | none => some "no-such-sg"
     | _, _, _, _ => some "bad-op"
   | ["cif.label", l, j] => j.toNat?.map (fun n => Cif.imageLabel l n)
+  -- con.partition <sgno> <k> <x y z>… : coremap of SymmetryConstraints on exact positions (units 1/(24k))
+  | "con.partition" :: sg :: k :: rest =>
+    match sg.toNat?, k.toInt?, parseInts rest with
+    | some sgno, some kk, some is =>
+      match findSG sgno with
+      | some g =>
+        let rec trip : List Int → List P3
+          | a :: b :: c :: more => (a, b, c) :: trip more
+          | _ => []
+        let cm := Partition.coremap g.ops kk (trip is)
+        some (String.intercalate ";" (cm.map (fun e => s!"{e.1}:" ++ String.intercalate "," (e.2.map toString))))
+      | none => some "no-such-sg"
+    | _, _, _ => some "bad-op"
   | _ => none
 
 /-- REGISTER model handlers here: each returns `none` for commands it does not own.
